@@ -61,3 +61,13 @@ Theorem C18_program_parses : forall n is, Forall instr_wf is ->
   p_program (program_toks n is) = Some (header_stmts ++ [SQubitDecl n] ++ decl_stmts is ++ body_stmts 0 is).
 Proof. exact program_parses. Qed.
 Print Assumptions C18_body_parses. Print Assumptions C18_program_parses.
+
+(* ---- acceptance ---- *)
+From QI Require Import Proofs.C18c.
+(* Every program emitted for a circuit of width n >= 1 whose instructions are valid - gate names of stdgates.inc (or U) with
+   their parameter and operand counts, operands in range and pairwise distinct, measurement groups non-empty, in range,
+   in a named or custom basis - is ACCEPTED: no malformed token, it parses, every register is declared before use with a
+   size >= 1, every index is in range and every bit is assigned exactly once. *)
+Theorem C18_export_accepted : forall n is, (1 <= n)%N -> Forall (instr_valid n) is -> accepts (program_toks n is) = true.
+Proof. exact export_accepted. Qed.
+Print Assumptions C18_export_accepted.
